@@ -168,6 +168,70 @@ def must_reject_sizes():
     return out
 
 
+REPORTED = [  # inputs on which the pinned tree escaped with an internal exception (side observations of independent sub-agents, round 4; repaired by fix: commits) - kept as regression cases
+    ("id", "a ((2 3)...) -> a", [(3, 6)], {}), ("id", "(a (2 3)...) -> a", [(18,)], {}),                        # NameError: numpy used without import in stage1/tree.py
+    ("id", "(([a]) + b) -> b", [(5,)], {"a": 2}), ("solve_axes", "(([a]) + b)", [(5,)], {}), ("solve_axes", "((a [b]) + c)", [(5,)], {"a": 1, "b": 2}),  # AssertionError: brackets inside a concatenation operand
+    ("id", "a b -> b a", [(2, 3)], {"a": -1}), ("id", "a... -> a...", [(2, 3)], {"a": (2, -3)}), ("solve_axes", "a b", [(2, 3)], {"a": -2}),            # SyntaxError about the generated text '-1'
+]
+GROUP_UNDER_ELLIPSIS = [("solve_axes", "[a b]...", [(2, 3)], {}), ("solve_shapes", "[a b]... c", [(2, 3, 4)], {}), ("solve_axes", "a [b c]...", [(2, 3, 4)], {})]
+ZERO_SIZED_UPDATES = [("set_at", "a [b", [(2, 3), (0, 1), (0,)]), ("add_at", "a [b], p [1] -> a [b]", [(2, 3), (0, 1), (0,)]), ("subtract_at", "a [b], p [1], p q -> a [b]", [(2, 3), (0, 1), (0,)]),
+                      ("set_at", "a [b], p [1], p -> a [b], c", [(2, 3), (0, 1), (0,)])]
+
+
+def reported_cases():
+    """regression inputs of repaired defects: must end in a documented exception, whose text (for SyntaxError) does not quote generated text"""
+    import einx
+    out = []
+    for op, d, shapes, kw in REPORTED:
+        ts = [np.zeros(s) for s in shapes]
+        r = classify(lambda: getattr(einx, op)(d, *ts, **kw))
+        if r[0] == "ok":
+            r = ("accepted", "returned a value", "-", "a call that is ill-formed was computed instead of rejected")
+        elif r[0] == "rejected" and r[1] == "SyntaxError" and any(isinstance(v, (int, tuple)) and "-" in str(v) for v in kw.values()):
+            r = ("internal", "einx.errors.SyntaxError", "-", "a negative size keyword is reported as a syntax error about text the caller did not write")
+        out.append((r, {"op": op, "description": d, "shapes": [list(s) for s in shapes], "kwargs": {k: str(v) for k, v in kw.items()}, "edit": "regression list", "seed_call": d}))
+    return out
+
+
+def group_under_ellipsis(chk):
+    """'[a b]...': finding F-ellipsis-group-rank (the rank equations count a bracket group of k axes under an ellipsis as ONE dimension per repetition)"""
+    import einx
+    out = []
+    for op, d, shapes, kw in GROUP_UNDER_ELLIPSIS:
+        ts = [np.zeros(s) for s in shapes]
+        r = classify(lambda: getattr(einx, op)(d, *ts, **kw))
+        dd = {"op": op, "description": d, "shapes": [list(s) for s in shapes], "kwargs": {}, "edit": "bracket group under an ellipsis", "seed_call": d}
+        if r[0] == "internal" and r[1] == "builtins.AssertionError" and r[2].startswith("_src/namedtensor/stage3/solve.py"):
+            chk.known_finding("F-ellipsis-group-rank", "einx.solve_axes / solve_shapes on '[a b]...' (a bracket group of >= 2 axes under an ellipsis) fail with AssertionError in stage3.solve: the ellipsis is expanded once per tensor dimension instead of once per group")
+            out.append((("rejected", "known"), dd))
+        else:
+            out.append((r, dd))
+    return out
+
+
+def zero_sized_updates(chk):
+    """finding F-zero-size-update-shortcut: set_at/add_at/subtract_at return their first argument without parsing or validating anything when a coordinate/update tensor has a zero-length dimension"""
+    import einx
+    out = []
+    for op, d, shapes in ZERO_SIZED_UPDATES:
+        ts = [np.zeros(shapes[0]), np.zeros(shapes[1], dtype=int), np.zeros(shapes[2])]
+        box = {}
+
+        def call():
+            box["r"] = getattr(einx, op)(d, *ts)
+
+        r = classify(call)
+        dd = {"op": op, "description": d, "shapes": [list(s) for s in shapes], "kwargs": {}, "edit": "ill-formed call with a zero-sized coordinate tensor", "seed_call": d}
+        if r[0] == "ok" and isinstance(box.get("r"), np.ndarray) and box["r"].shape == tuple(shapes[0]):
+            chk.known_finding("F-zero-size-update-shortcut", "einx.set_at / add_at / subtract_at with a zero-sized coordinate or update tensor return the target without parsing or validating anything, e.g. einx.set_at('a [b', x, zeros((0, 1)), zeros((0,)))")
+            out.append((("rejected", "known"), dd))
+        elif r[0] == "ok":
+            out.append((("accepted", "returned a value", "-", "an ill-formed call was computed instead of rejected"), dd))
+        else:
+            out.append((r, dd))
+    return out
+
+
 def run(tier, seed):
     chk = Check("C03", tier, seed, "other")
     from ..kernels import c12_lexer, c03_indicator
@@ -184,7 +248,7 @@ def run(tier, seed):
     chk.add_rule("C03.S.sizes_not_narrowed", ok, sites, failing, detail="a size that is narrowed to a fixed-width integer can turn an ill-formed call into a well-formed one (same rule as C02.S.exact)")
     n = 24 if tier == "quick" else 600
     res = [x for r in harness.pmap(_work, [(seed, i) for i in range(n)]) for x in r]
-    res += must_reject() + must_reject_sizes()
+    res += must_reject() + must_reject_sizes() + reported_cases() + group_under_ellipsis(chk) + zero_sized_updates(chk)
     cnt = {}
     fails = []
     for r, d in res:
